@@ -19,12 +19,13 @@ Record Inv (s : state) : Prop := mkInv {
   i_idle : Widle s;
   i_w2 : W2 s;
   i_w4 : W4 s;
-  i_hfx : HFX s
+  i_hfx : HFX s;
+  i_w5 : W5 s
 }.
 
 Lemma Inv_init : forall o, Inv (init o).
 Proof.
-  intros o. constructor; unfold TB, AAct, ALock, APN, WF, WU, W1, W1b, Widle, W2, W4, HFX, nlive, wpc_of; cbn; auto.
+  intros o. constructor; unfold TB, AAct, ALock, APN, WF, WU, W1, W1b, Widle, W2, W4, W5, HFX, nlive, wpc_of; cbn; auto.
   all: try (intros; discriminate).
   all: try (intros; congruence).
   all: try (split; intros; auto; discriminate).
@@ -48,6 +49,7 @@ Proof.
   - eapply W2_step; eauto.
   - eapply W4_step; eauto.
   - eapply HFX_step; eauto.
+  - eapply W5_step; eauto.
 Qed.
 
 Lemma Inv_run : forall o tr s, run (init o) tr = Some s -> Inv s.
